@@ -289,6 +289,25 @@ fn run(ctx: &mut Ctx) {
             }
         });
     }
+    // 3e. a variable divided by the LITERAL zero (integer types): the program prints up to the division and fails there;
+    // the Go text must not hand the Go compiler a constant zero divisor, which it rejects (added after a seeded change
+    // that hoisted the zero only when the dividend was a literal too)
+    if ctx.mine(799_997) {
+        for (ty, lit, zero) in [("int32", "7", "0"), ("int8", "7i8", "0i8"), ("uint8", "7u8", "0u8"), ("int64", "7i64", "0i64"), ("uint64", "7u64", "0u64"), ("uint16", "7u16", "0u16")] {
+            let src = format!("fn half(n: {ty}) -> {ty} {{\n    let _ = string_println(\"dividing\");\n    n / {zero}\n}}\nfn main() -> unit {{\n    let _ = string_println(\"start\");\n    let n: {ty} = {lit};\n    let q = half(n);\n    let _ = string_println({ty}_to_string(q));\n    ()\n}}\n", ty = ty, lit = lit, zero = zero);
+            let label = format!("literal-zero-divisor/{}", ty);
+            ctx.case(&label.clone(), |c| {
+                if let Some((out, term, stderr)) = crate::exec::run_source(c, "C01", &label, &src, 1_000_000) {
+                    if out == "start\ndividing\n" && matches!(term, crate::goexec::Term::Fail(_)) {
+                        c.count("literal_zero_divisor_programs_ok", 1);
+                        c.count("executions", 1);
+                    } else {
+                        c.violation("C01:failure-point-differs:literal-zero-divisor".to_string(), format!("`n / {}` at {}: prints {:?} and ends {:?} ({}), expected the two lines and a run-time failure", zero, ty, out, term, util::truncate(&stderr, 80)), json!({"source": src}));
+                    }
+                }
+            });
+        }
+    }
     // 3b. user functions named like Go's predeclared functions and types, with effects, results discarded in three
     // ways, and (for the Vec-shaped ones) next to the builtin vec operations that are emitted under those Go names
     {
